@@ -92,6 +92,8 @@ def slot_diff(ms, ps, mode='both'):
     mode 'values': only values are judged (C01); 'types': only declared types (C02); 'both'."""
     mt, mv = ms
     pt, pv = ps
+    if pt == 'deep' or mt == 'deep':
+        return None          # slot outside the hook's snapshot window (real-contract runs): not compared at this step
     if pt == 'extract-error':
         return 'extract', pv
     if mt != pt:
@@ -398,7 +400,7 @@ def self_contained_storage(storage_texpr, recorded, diffs, fill=True):
     return map_bigmaps(storage_texpr, recorded, fn)
 
 
-def run_real_contract(script, entrypoint, ep_path, ep_texpr, param_value, storage_value, env=None, mode='values'):
+def run_real_contract(script, entrypoint, ep_path, ep_texpr, param_value, storage_value, env=None, mode='values', deep=False):
     """One call of a real contract: pytezos through Interpreter.run_code under the instruction hook, then the reference
     interpreter on the same (parameter, storage) pair with the operation-building instructions adopted from the hook trace.
     Lock-step comparison, FAILWITH value, and the returned storage outside big maps."""
@@ -415,12 +417,14 @@ def run_real_contract(script, entrypoint, ep_path, ep_texpr, param_value, storag
     except (P.ParseError, P.Uncertain, KeyError, TypeError, ValueError, IndexError) as e:
         out.kind, out.detail = 'unsupported', 'inputs not readable by the model: %r' % (e,)
         return out
-    with H.monitoring(step_limit=400000) as mon:
+    with H.monitoring(step_limit=60000, keep_objects=deep, window=8, node_budget=6000000) as mon:
         try:
             ops, storage, lazy_diff, stdout, error = Interpreter.run_code(
                 parameter=param_value, storage=storage_value, script=script, entrypoint=entrypoint, **env_kwargs(env or {}))
         except H.HarnessAbort:
-            out.kind, out.mon, out.sig, out.detail = 'violation', mon, 'runaway', 'run_code executed more than 400000 instructions'
+            # a random argument can make a real contract loop for as long as it likes (on chain it would run out of gas):
+            # beyond the step budget nothing is judged
+            out.kind, out.mon, out.detail = 'unsupported', mon, 'step or snapshot budget exhausted: the call executes more than 60000 instructions or its traces exceed the memory guard'
             return out
     out.mon = mon
     out.returned = (ops, storage, lazy_diff, error)
@@ -428,7 +432,7 @@ def run_real_contract(script, entrypoint, ep_path, ep_texpr, param_value, storag
         out.kind, out.detail = 'unsupported', 'rejected before execution: %s' % errtext(error)
         out.pre_error = error
         return out
-    m = I.Machine(env, max_steps=400000, oracle=mon.events)
+    m = I.Machine(env, max_steps=200000, oracle=mon.events)
     r = m.run(body, [(T.pair(pt, st), (pv, sv))])
     r.adopted = m.adopted
     out.model = r
@@ -436,6 +440,11 @@ def run_real_contract(script, entrypoint, ep_path, ep_texpr, param_value, storag
         out.kind, out.detail = ('unsupported' if r.kind == 'unsupported' else 'inconclusive'), r.detail
         return out
     judge(out, r, mon, _Res(error), None, mode)
+    if deep and out.kind == 'agree':
+        out.walks, bad = self_consistency(mon)
+        if bad:
+            out.kind, out.sig, out.detail = 'violation', bad[0], bad[1]
+            return out
     if out.kind == 'agree' and r.kind == 'ok' and error is None and mode != 'types':
         want = r.stack[0][1][1]
         try:
@@ -552,3 +561,31 @@ def check_lazy_diff(stx, st, initial, final, returned_storage, lazy_diff):
             return compared, ('lazy-diff|contents-differ', 'big map at %s: after applying the diff %d entries, the reference holds %d; missing %r, '
                               'unexpected %r, different %r' % (path, len(cur), len(want), missing, extra, wrong))
     return compared, None
+
+
+def self_consistency(mon, budget=20000):
+    """Sanitizer-style invariant on the live objects the hook kept: at every node of every value that was ever on the stack,
+    the types the container class declares for its components are the types of the components it actually holds
+    (X.conformance_errors of the object against its own declared type). Each distinct object is walked once.
+    -> (objects walked, None | (signature, detail))"""
+    seen = set()
+    walked = 0
+    for idx, objs in enumerate(mon.objects):
+        for j, obj in enumerate(objs):
+            if id(obj) in seen:
+                continue
+            seen.add(id(obj))
+            if walked >= budget:
+                return walked, None
+            walked += 1
+            try:
+                decl = X.type_of_class(type(obj))
+            except X.ExtractError as e:
+                return walked, ('%s|deep-type|class' % mon.events[idx][0], 'slot %d after instruction #%d: %s' % (j, idx, e))
+            errs = X.conformance_errors(obj, decl)
+            if errs:
+                path, exp, found, how = errs[0]
+                return walked, ('%s|deep-type|%s' % (mon.events[idx][0], how),
+                                'slot %d after instruction #%d %s, at %s: the container declares %s, the component is %s'
+                                % (j, idx, mon.events[idx][0], path, T.show(exp), found if isinstance(found, str) else T.show(found)))
+    return walked, None
